@@ -1,11 +1,14 @@
 package checks
 
 import (
+	"bytes"
 	"encoding/binary"
 	"fmt"
 	"strings"
 
+	pb "github.com/google/go-tdx-guest/proto/tdx"
 	"github.com/google/go-tdx-guest/validate"
+	"google.golang.org/protobuf/proto"
 
 	"verifharness/mc"
 	"verifharness/ref"
@@ -162,6 +165,18 @@ func runC08(r *mc.Run) {
 				o.TdQuoteBodyOptions.AnyMrTd = [][]byte{v}
 				add(fmt.Sprintf("opt2/AnyMrTd[0]^bit%d^bit%d", b1, b2), raw0, o)
 			}
+		}
+		for k := 1; k < 48; k++ {
+			a := append(append([]byte{}, world.Fill("c08-straddle-a", k)...), mr[:48-k]...)
+			b := append(append([]byte{}, mr[48-k:]...), world.Fill("c08-straddle-b", 48-k)...)
+			o := &validate.Options{}
+			o.TdQuoteBodyOptions.AnyMrTd = [][]byte{a, b}
+			add(fmt.Sprintf("straddle/AnyMrTd@%d", k), raw0, o)
+			// the same for the RTMR list: register i's value straddling entries i-1 / i
+			o2 := &validate.Options{}
+			r1 := raw0[48+376 : 48+424]
+			o2.TdQuoteBodyOptions.Rtmrs = [][]byte{append(append([]byte{}, raw0[48+328:48+328+k]...), r1[:48-k]...), append(append([]byte{}, r1[48-k:]...), world.Fill("c08-straddle-r", 48-k)...), nil, nil}
+			add(fmt.Sprintf("straddle/Rtmrs@%d", k), raw0, o2)
 		}
 		for _, f := range optFields {
 			for a := 0; a+8 <= f.len; a += 8 {
@@ -503,6 +518,7 @@ func runC08(r *mc.Run) {
 	})
 	r.SectionDone(mc.Section{Name: "policy-products", Evaluations: int64(done), Exhaustive: done == len(cases)})
 	c08Histories(r, raw0)
+	c08MessageShapes(r, raw0)
 	// degenerate: nil options, wrong quote type
 	for name, fn := range map[string]func() error{
 		"nil-options":  func() error { return safeValidateRaw(raw0, nil) },
@@ -699,4 +715,157 @@ func c08Histories(r *mc.Run, raw0 []byte) {
 		r.SectionDone(mc.Section{Name: "reused-options-histories/init:" + in.name, Evaluations: int64(done), MaxDepth: depth, Exhaustive: done == total,
 			Note: fmt.Sprintf("alphabet of %d operations (%d reconfigurations, %d validations), every sequence of length %d ending in a validation", n, n-nv, nv, depth)})
 	}
+}
+
+// c08MessageShapes: quote MESSAGES (not byte strings) whose TD body fields have other sizes than the layout gives them —
+// one field shorter / longer / empty, and every ordered pair of fields where one loses exactly the bytes the other
+// gains (the total stays 584) — validated under option values that configure an expectation on the resized field.
+// The expectations are read literally on the message: an exact-match field equals the quote's or not; every one of the
+// 16 configured minimum components must be met by a component the quote has; XFAM / TD_ATTRIBUTES respect the fixed
+// masks only if they are 8-byte values that do. No message may crash validation or be accepted while missing one.
+func c08MessageShapes(r *mc.Run, raw0 []byte) {
+	q0, err := safeToProto(raw0)
+	if err != nil {
+		r.HarnessError("C08 message shapes: baseline does not parse: %v", err)
+		return
+	}
+	type fld struct {
+		name string
+		get  func(b *pb.TDQuoteBody) *[]byte
+	}
+	flds := []fld{
+		{"tee_tcb_svn", func(b *pb.TDQuoteBody) *[]byte { return &b.TeeTcbSvn }}, {"mr_seam", func(b *pb.TDQuoteBody) *[]byte { return &b.MrSeam }},
+		{"mr_signer_seam", func(b *pb.TDQuoteBody) *[]byte { return &b.MrSignerSeam }}, {"seam_attributes", func(b *pb.TDQuoteBody) *[]byte { return &b.SeamAttributes }},
+		{"td_attributes", func(b *pb.TDQuoteBody) *[]byte { return &b.TdAttributes }}, {"xfam", func(b *pb.TDQuoteBody) *[]byte { return &b.Xfam }},
+		{"mr_td", func(b *pb.TDQuoteBody) *[]byte { return &b.MrTd }}, {"mr_config_id", func(b *pb.TDQuoteBody) *[]byte { return &b.MrConfigId }},
+		{"mr_owner", func(b *pb.TDQuoteBody) *[]byte { return &b.MrOwner }}, {"mr_owner_config", func(b *pb.TDQuoteBody) *[]byte { return &b.MrOwnerConfig }},
+		{"report_data", func(b *pb.TDQuoteBody) *[]byte { return &b.ReportData }},
+	}
+	for i := 0; i < 4; i++ {
+		i := i
+		flds = append(flds, fld{fmt.Sprintf("rtmrs[%d]", i), func(b *pb.TDQuoteBody) *[]byte { return &b.Rtmrs[i] }})
+	}
+	type shape struct {
+		name string
+		mut  func(b *pb.TDQuoteBody)
+	}
+	var shapes []shape
+	shapes = append(shapes, shape{"genuine", func(*pb.TDQuoteBody) {}})
+	resize := func(p *[]byte, d int) {
+		v := append([]byte(nil), *p...)
+		if d < 0 {
+			v = v[:len(v)+d]
+		} else {
+			v = append(v, make([]byte, d)...)
+		}
+		*p = v
+	}
+	for i, a := range flds {
+		a := a
+		n := len(*a.get(q0.TdQuoteBody))
+		for _, d := range []int{-1, -8, -n, 1, 8} {
+			d := d
+			if -d > n {
+				continue
+			}
+			shapes = append(shapes, shape{fmt.Sprintf("%s%+d", a.name, d), func(b *pb.TDQuoteBody) { resize(a.get(b), d) }})
+		}
+		for j, bf := range flds {
+			if i == j {
+				continue
+			}
+			bf := bf
+			for _, d := range []int{1, 8, n} {
+				d := d
+				if d > n || (d == 8 && n == 8) {
+					continue
+				}
+				shapes = append(shapes, shape{fmt.Sprintf("%s-%d,%s+%d", a.name, d, bf.name, d), func(b *pb.TDQuoteBody) { resize(a.get(b), -d); resize(bf.get(b), d) }})
+			}
+		}
+	}
+	g := q0.TdQuoteBody
+	cp := func(b []byte) []byte { return append([]byte(nil), b...) }
+	type optv struct {
+		name string
+		mk   func() *validate.Options
+	}
+	opts := []optv{{"empty", func() *validate.Options { return &validate.Options{} }}}
+	for _, k := range []int{0, 7, 8, 12, 15} {
+		k := k
+		opts = append(opts, optv{fmt.Sprintf("minimum_tee_tcb_svn[%d]=quote+1", k), func() *validate.Options {
+			v := cp(g.TeeTcbSvn)
+			v[k]++
+			return &validate.Options{TdQuoteBodyOptions: validate.TdQuoteBodyOptions{MinimumTeeTcbSvn: v}}
+		}})
+	}
+	opts = append(opts, optv{"minimum_tee_tcb_svn=quote", func() *validate.Options {
+		return &validate.Options{TdQuoteBodyOptions: validate.TdQuoteBodyOptions{MinimumTeeTcbSvn: cp(g.TeeTcbSvn)}}
+	}}, optv{"all-exact-fields=quote", func() *validate.Options {
+		return &validate.Options{TdQuoteBodyOptions: validate.TdQuoteBodyOptions{MrSeam: cp(g.MrSeam), TdAttributes: cp(g.TdAttributes), Xfam: cp(g.Xfam), MrTd: cp(g.MrTd),
+			MrConfigID: cp(g.MrConfigId), MrOwner: cp(g.MrOwner), MrOwnerConfig: cp(g.MrOwnerConfig), ReportData: cp(g.ReportData),
+			Rtmrs: [][]byte{cp(g.Rtmrs[0]), cp(g.Rtmrs[1]), cp(g.Rtmrs[2]), cp(g.Rtmrs[3])}, AnyMrTd: [][]byte{cp(g.MrTd)}}}
+	}})
+	fixedOK := func(v []byte, fixed1, fixed0 uint64) bool {
+		if len(v) != 8 {
+			return false
+		}
+		x := binary.LittleEndian.Uint64(v)
+		return x&fixed1 == fixed1 && x&^fixed0 == 0
+	}
+	holds := func(q *pb.QuoteV4, o *validate.Options) bool {
+		b, t := q.TdQuoteBody, o.TdQuoteBodyOptions
+		eq := func(want, got []byte) bool { return len(want) == 0 || bytes.Equal(want, got) }
+		ok := eq(t.MrSeam, b.MrSeam) && eq(t.TdAttributes, b.TdAttributes) && eq(t.Xfam, b.Xfam) && eq(t.MrTd, b.MrTd) && eq(t.MrConfigID, b.MrConfigId) &&
+			eq(t.MrOwner, b.MrOwner) && eq(t.MrOwnerConfig, b.MrOwnerConfig) && eq(t.ReportData, b.ReportData)
+		for i, want := range t.Rtmrs {
+			ok = ok && (i < len(b.Rtmrs) && eq(want, b.Rtmrs[i]))
+		}
+		if len(t.AnyMrTd) > 0 {
+			in := false
+			for _, e := range t.AnyMrTd {
+				in = in || bytes.Equal(e, b.MrTd)
+			}
+			ok = ok && in
+		}
+		for i, m := range t.MinimumTeeTcbSvn {
+			ok = ok && i < len(b.TeeTcbSvn) && b.TeeTcbSvn[i] >= m
+		}
+		// architectural masks (validate.go: xfamFixed1 / xfamFixed0 / tdAttributesFixed1 / tdAttributesFixed0)
+		return ok && fixedOK(b.Xfam, 0x3, 0x0006DBE7) && fixedOK(b.TdAttributes, 0, 0x1|1<<28|1<<30|1<<63)
+	}
+	type job struct{ s, o int }
+	var jobs []job
+	for si := range shapes {
+		for oi := range opts {
+			jobs = append(jobs, job{si, oi})
+		}
+	}
+	done := r.Parallel(len(jobs), func(i int) {
+		sh, ov := shapes[jobs[i].s], opts[jobs[i].o]
+		id := fmt.Sprintf("message-shape/%s/options=%s", sh.name, ov.name)
+		if !r.Want(id) {
+			return
+		}
+		q := proto.Clone(q0).(*pb.QuoteV4)
+		sh.mut(q.TdQuoteBody)
+		o := ov.mk()
+		err := safeValidate(q, o)
+		want := holds(q, o)
+		out := verdict(err)
+		switch {
+		case world.IsPanic(err):
+			r.Violate("message-shape:panic:"+crashSite(err), id, "validate.TdxQuote crashes on a quote message with resized fields: "+errStr(err), nil)
+			out = "panic"
+		case err == nil && !want:
+			r.Violate("message-shape:accepted-despite-miss:"+ov.name, id, "a quote message that misses a configured expectation (read literally on its fields) is accepted", nil)
+			out = "accept!"
+		case err != nil && sh.name == "genuine" && want:
+			r.Violate("message-shape:genuine-rejected", id, "the genuine message is rejected under expectations it meets: "+errStr(err), nil)
+			out = "reject!"
+		}
+		r.Eval(id, sh.name != "genuine", fmt.Sprintf("message-shape:holds=%v:%s", want, out))
+	})
+	r.SectionDone(mc.Section{Name: "message-shapes", Evaluations: int64(done), Exhaustive: done == len(jobs),
+		Note: fmt.Sprintf("%d message shapes (single resizes and every ordered compensating pair over %d TD body fields) x %d option values", len(shapes), len(flds), len(opts))})
 }
